@@ -264,7 +264,235 @@ pub fn main_algebra(out: &str, what: &str, l: usize, m: u32, seed: u64) {
         "dnm" => dense_maps(&mut o, l),
         "plans" => plans(&mut o, l, m),
         "containers" => containers(&mut o, seed, l),
+        "identity" => identity(&mut o),
         w => panic!("algebra {w}"),
     }
     o.flush().unwrap();
+}
+
+// ---------------------------------------------------------------------------------------------
+// C04, value level: concrete values built in different ways from the same abstract value must feed the same byte
+// stream to the hasher and compare equal; different abstract values must feed different streams.
+
+fn subsets(atoms: &[u8]) -> Vec<Vec<u8>> {
+    let mut out = vec![];
+    for m in 0..(1u32 << atoms.len()) {
+        out.push(atoms.iter().enumerate().filter(|(i, _)| m >> i & 1 == 1).map(|(_, a)| *a).collect());
+    }
+    out
+}
+
+/// several concrete HashableHashSets for one abstract set
+fn set_variants(items: &[u8]) -> Vec<HashableHashSet<u8>> {
+    let mut v = vec![];
+    let a: HashableHashSet<u8> = items.iter().cloned().collect();
+    v.push(a);
+    let mut b = HashableHashSet::with_capacity(64);
+    for x in items.iter().rev() {
+        b.insert(*x);
+    }
+    v.push(b);
+    let mut c: HashableHashSet<u8> = HashableHashSet::new();
+    for x in items {
+        c.insert(*x);
+    }
+    for x in [200u8, 201, 202] {
+        c.insert(x);
+    }
+    for x in [200u8, 201, 202] {
+        c.remove(&x);
+    }
+    v.push(c);
+    v
+}
+
+fn key_set(items: &[u8]) -> String {
+    let mut s = items.to_vec();
+    s.sort();
+    format!("{:?}", s)
+}
+
+fn rec(o: &mut dyn Write, cat: &str, key: String, variant: usize, stream: String) {
+    emit(o, json!({"rec": "identity", "cat": cat, "key": key, "variant": variant, "stream": stream}));
+}
+
+pub fn identity(o: &mut dyn Write) {
+    let atoms = [1u8, 2, 3];
+    let subs = subsets(&atoms);
+    // 1. two adjacent sets in a tuple
+    for a in &subs {
+        for b in &subs {
+            let (va, vb) = (set_variants(a), set_variants(b));
+            for k in 0..va.len() {
+                rec(o, "pair_of_sets", format!("{}|{}", key_set(a), key_set(b)), k, stream_of(&(va[k].clone(), vb[(k + 1) % vb.len()].clone())));
+            }
+        }
+    }
+    // 2. vectors of sets (adjacent collections), also as Timers (the per-actor timer sets of a system state)
+    let small = subsets(&[1u8, 2]);
+    let mut vecs: Vec<Vec<Vec<u8>>> = vec![vec![]];
+    let mut frontier: Vec<Vec<Vec<u8>>> = vec![vec![]];
+    for _ in 0..3 {
+        let mut nf = vec![];
+        for f in &frontier {
+            for s in &small {
+                let mut g = f.clone();
+                g.push(s.clone());
+                nf.push(g);
+            }
+        }
+        vecs.extend(nf.iter().cloned());
+        frontier = nf;
+    }
+    for v in &vecs {
+        let key = v.iter().map(|s| key_set(s)).collect::<Vec<_>>().join("|");
+        for k in 0..3 {
+            let conc: Vec<HashableHashSet<u8>> = v.iter().map(|s| set_variants(s)[k].clone()).collect();
+            rec(o, "vec_of_sets", key.clone(), k, stream_of(&conc));
+        }
+        let timers: Vec<stateright::actor::Timers<u8>> = v
+            .iter()
+            .map(|s| {
+                let mut t = stateright::actor::Timers::new();
+                for x in s {
+                    t.set(*x);
+                }
+                t
+            })
+            .collect();
+        rec(o, "vec_of_timers", key.clone(), 0, stream_of(&timers));
+        let timers2: Vec<stateright::actor::Timers<u8>> = v
+            .iter()
+            .map(|s| {
+                let mut t = stateright::actor::Timers::new();
+                for x in s.iter().rev() {
+                    t.set(*x);
+                }
+                t.set(77);
+                t.cancel(&77);
+                t
+            })
+            .collect();
+        rec(o, "vec_of_timers", key, 1, stream_of(&timers2));
+    }
+    // 3. maps, adjacent maps
+    let keys = [1u8, 2];
+    let mut maps: Vec<Vec<(u8, u8)>> = vec![vec![]];
+    for k in keys {
+        let mut nx = vec![];
+        for m in &maps {
+            nx.push(m.clone());
+            for v in [1u8, 2] {
+                let mut m2 = m.clone();
+                m2.push((k, v));
+                nx.push(m2);
+            }
+        }
+        maps = nx;
+    }
+    let mk_map = |m: &Vec<(u8, u8)>, variant: usize| -> HashableHashMap<u8, u8> {
+        let mut h = if variant == 1 { HashableHashMap::with_capacity(32) } else { HashableHashMap::new() };
+        if variant == 1 {
+            for (k, v) in m.iter().rev() {
+                h.insert(*k, *v);
+            }
+        } else {
+            for (k, v) in m {
+                h.insert(*k, *v);
+            }
+        }
+        h
+    };
+    for a in &maps {
+        for b in &maps {
+            for k in 0..2 {
+                rec(o, "pair_of_maps", format!("{:?}|{:?}", a, b), k, stream_of(&(mk_map(a, k), mk_map(b, 1 - k))));
+            }
+        }
+    }
+    // 4. nested: sets of sets, maps to sets, sets as map keys -- built in different orders / capacities
+    let inner = subsets(&[1u8, 2]);
+    for m in 0..(1u32 << inner.len()) {
+        let chosen: Vec<Vec<u8>> = inner.iter().enumerate().filter(|(i, _)| m >> i & 1 == 1).map(|(_, s)| s.clone()).collect();
+        let mut ks: Vec<String> = chosen.iter().map(|s| key_set(s)).collect();
+        ks.sort();
+        let key = ks.join("|");
+        for k in 0..3 {
+            let mut outer: HashableHashSet<HashableHashSet<u8>> = if k == 1 { HashableHashSet::with_capacity(50) } else { HashableHashSet::new() };
+            let order: Vec<&Vec<u8>> = if k == 1 { chosen.iter().rev().collect() } else { chosen.iter().collect() };
+            for s in order {
+                outer.insert(set_variants(s)[k].clone());
+            }
+            rec(o, "set_of_sets", key.clone(), k, stream_of(&outer));
+            // the same sets as values of a map (key = index in `inner`)
+            let mut mp: HashableHashMap<u8, HashableHashSet<u8>> = HashableHashMap::new();
+            for s in &chosen {
+                let idx = inner.iter().position(|x| x == s).unwrap() as u8;
+                mp.insert(idx, set_variants(s)[k].clone());
+            }
+            rec(o, "map_to_sets", key.clone(), k, stream_of(&mp));
+            let mut mk: HashableHashMap<HashableHashSet<u8>, u8> = HashableHashMap::new();
+            for s in &chosen {
+                mk.insert(set_variants(s)[(k + 1) % 3].clone(), 9);
+            }
+            rec(o, "sets_as_map_keys", key.clone(), k, stream_of(&mk));
+        }
+    }
+    // 5. adjacent vector clocks (trailing zeros are insignificant)
+    let clocks = seqs_up_to(2, 1);
+    let canon = |c: &Vec<u32>| {
+        let mut d = c.clone();
+        while d.last() == Some(&0) {
+            d.pop();
+        }
+        format!("{:?}", d)
+    };
+    for a in &clocks {
+        for b in &clocks {
+            let key = format!("{}|{}", canon(a), canon(b));
+            rec(o, "pair_of_clocks", key.clone(), 0, stream_of(&(VectorClock::from(a.clone()), VectorClock::from(b.clone()))));
+            let mut a2 = a.clone();
+            a2.push(0);
+            rec(o, "pair_of_clocks", key.clone(), 1, stream_of(&(VectorClock::from(a2), VectorClock::from(b.clone()))));
+            rec(o, "vec_of_clocks", key, 0, stream_of(&vec![VectorClock::from(a.clone()), VectorClock::from(b.clone())]));
+        }
+    }
+    // 6. networks: same contents built in different send orders; last_msg and counts are part of the identity
+    let envs: Vec<Envelope<u8>> = vec![
+        Envelope { src: Id::from(0), dst: Id::from(1), msg: 1 },
+        Envelope { src: Id::from(1), dst: Id::from(0), msg: 1 },
+        Envelope { src: Id::from(0), dst: Id::from(1), msg: 2 },
+    ];
+    for m in 0..(1u32 << envs.len()) {
+        let chosen: Vec<Envelope<u8>> = envs.iter().enumerate().filter(|(i, _)| m >> i & 1 == 1).map(|(_, e)| *e).collect();
+        let key = format!("{:?}", chosen);
+        for k in 0..2 {
+            let order: Vec<Envelope<u8>> = if k == 1 { chosen.iter().rev().cloned().collect() } else { chosen.clone() };
+            rec(o, "net_dup", format!("{}/none", key), k, stream_of(&Network::new_unordered_duplicating(order.clone())));
+            for l in &envs[..2] {
+                rec(o, "net_dup", format!("{}/{:?}", key, l), k, stream_of(&Network::new_unordered_duplicating_with_last_msg(order.clone(), Some(*l))));
+            }
+            rec(o, "net_nondup", key.clone(), k, stream_of(&Network::new_unordered_nonduplicating(order.clone())));
+            let mut twice = order.clone();
+            if let Some(e) = chosen.first() {
+                twice.push(*e);
+                rec(o, "net_nondup", format!("{}+{:?}", key, e), k, stream_of(&Network::new_unordered_nonduplicating(twice)));
+            }
+        }
+        // ordered: per-flow order matters, interleaving of different flows does not
+        let o1: Vec<Envelope<u8>> = chosen.clone();
+        let flows_key = {
+            let mut f01: Vec<u8> = vec![];
+            let mut f10: Vec<u8> = vec![];
+            for e in &o1 {
+                if usize::from(e.src) == 0 { f01.push(e.msg) } else { f10.push(e.msg) }
+            }
+            format!("{:?}|{:?}", f01, f10)
+        };
+        rec(o, "net_ordered", flows_key.clone(), 0, stream_of(&Network::new_ordered(o1.clone())));
+        // move the 1->0 message to the front: same flows
+        let mut o2: Vec<Envelope<u8>> = o1.iter().filter(|e| usize::from(e.src) == 1).cloned().collect();
+        o2.extend(o1.iter().filter(|e| usize::from(e.src) == 0).cloned());
+        rec(o, "net_ordered", flows_key, 1, stream_of(&Network::new_ordered(o2)));
+    }
 }
